@@ -28,7 +28,8 @@ VTT = "pycaption/webvtt.py"
 
 def run(ctx, report):
     folder = ctx.memo("folder", lambda: Folder(ctx.index))
-    report.section("SAMI decode once", sami_decode, ctx, report)
+    report.structural_section("SAMI decode once (handlers on a stub parser)", "R-DOC-TEXT on the generated SAMI documents (every reference "
+                              "spelling of the pool, alone, between words and next to a break)", sami_decode, ctx, report)
     report.section("WebVTT decode table", webvtt_decode, ctx, report, folder)
     report.section("DFXP apos workaround", dfxp_apos, ctx, report)
     report.section("capture regex", capture, ctx, report, folder)
